@@ -56,6 +56,7 @@ mod proofs {
         assert!(slot % 8 == 0 && slot >= 16, "slot size not 8-aligned / too small");
         assert!(spec::is_slot_size(slot), "slot size is not a documented class");
         assert!(slot == spec::slot_for(a + b), "slot differs from the documented rounding");
+        assert!(slot == spec::val_slot_chosen(len as u64), "value slot decision differs from the released rule");
         // the same slot later holds a free record: size, zero length, 8-byte link
         assert!(enc(slot64 / 8) + 1 + 8 <= slot64, "free record exceeds the slot");
         // in-place rewrite into any older, larger-or-equal slot
@@ -89,6 +90,7 @@ mod proofs {
         assert!(slot % 8 == 0 && slot >= 16);
         assert!(spec::is_slot_size(slot), "slot size is not a documented class");
         assert!(slot == spec::slot_for(a + b), "slot differs from the documented rounding");
+        assert!(slot == spec::key_slot_chosen(klen as u64, voff, noff), "key slot decision differs from the released rule");
         assert!(enc(slot64 / 8) + 1 + 8 <= slot64, "free record exceeds the slot");
         let old: u32 = kani::any();
         kani::assume(spec::is_slot_size(old) && old >= slot);
@@ -352,6 +354,15 @@ mod proofs {
         let k = KT::from(v);
         assert!(k.as_bytes().len() == l);
         assert!(k.hash_value() == spec::hash_key(&b[..l]), "placement hash differs from the released one");
+        if l <= 8 {
+            let mut b8 = [0u8; 8];
+            let mut i = 0;
+            while i < 8 {
+                b8[i] = b[i];
+                i += 1;
+            }
+            assert!(k.hash_value() == spec::hash_key_short(&b8, l), "loop-free form of the released hash differs (used by layer M)");
+        }
         kani::cover!(l == 9, "one full word and a tail");
         kani::cover!(l == 0, "empty key");
         core::mem::forget(k);
